@@ -248,12 +248,12 @@ ALL = ["C%02d" % i for i in range(1, 21)]
 ADDED = {
     "C01": " Also: the same programs with ignore_exc for the read operations; flush_all with a delay; the repository's own 106 integration "
            "tests, run against the reference server through the fake socket module (lib/itplugin), every public call with its socket "
-           "activity validated by TLC against ConnRule.",
+           "activity validated by TLC against ConnRule. Keys with a line break inside (no blank) must leave nothing to read; a call that returns has asked the server itself (the same keyless / read operation repeated on one connection).",
     "C02": " spec/Proto.tla gives the request grammar (Render) and a strict tokenizer (Tokenize) in TLA+; TLC checks RoundTrip, Concatenation, "
            "Prefix and the Injection lemma over a small byte alphabet (spec/ProtoMC.tla) and WireRule judges the raw bytes each call wrote "
            "with that tokenizer (the Python parser is cross-checked against it). Also covered: stats arguments and operations without keys "
            "(stats, cache_memlimit, version, quit, shutdown), the same text as stats argument / memory limit and as key on one client, "
-           "batches of 70-300 keys with the illegal key late, and what the repository's integration tests wrote (spec/SentRule.tla).",
+           "batches of 70-300 keys with the illegal key late, and what the repository's integration tests wrote (spec/SentRule.tla). Buffer objects (bytearray, memoryview, array) as values: the payload is left open, well-formedness is required.",
     "C03": " The outcome of a public call includes the number of reply bytes it left unread.",
     "C04": " The grid now has 7 collection kinds (a key named more than once in list / iterator form: 120k points); values include subclasses "
            "of str/int and mixed-type set_many batches.",
@@ -261,9 +261,9 @@ ADDED = {
            "spec/ClientOps.tla models every method at wire level (commands, a faithful server, reply interpretation) and Cache.tla checks in "
            "every reachable state that client + server refine the abstract cache (WireRefinesAbstract) -- and, started in each of the 7.5k "
            "well-formed states of a bounded shape (SpecAll), in every state whether reachable within the depth or not: agreement on all "
-           "(state, operation) pairs is agreement on histories of any length.",
+           "(state, operation) pairs is agreement on histories of any length. The wire-level table is also bound to the code: the commands each replayed call sent are compared by TLC with ClientOps.Cmds (spec/CacheWireTrace.tla; a difference with equal results is model drift). Item-style access (c[k], c[k] = v, del c[k]) as spellings of get/set/delete; a three-server HashClient (one UNIX-socket server) with multi-key calls whose keys interleave over the servers.",
     "C06": " Also: HashClient stacks that give up on their server while it comes back (socket bookkeeping clauses only); the repository's "
-           "integration tests as a trace source (see C01).",
+           "integration tests as a trace source (see C01). The server's name re-pointed to another address before / after a failure: the next call resolves again and works (a connect to the stale address is the client's fault, not the environment's).",
     "C08": " What escapes a pooled call (capacity error or the call's own error, never an error raised inside pool.py), calls rejected "
            "before any exchange next to ordinary calls (two preemptions), and 'a connection is given back only by its holder'. "
            "spec/PoolInd.tla states the same statement-level steps for threads that go on forever and Apalache checks that its invariant is "
@@ -272,29 +272,29 @@ ADDED = {
     "C09": " Also: every public operation x every single-fault plan on the pooled stacks, misc operations in the sequences, calls that fail "
            "without a connection fault (illegal key, dict-style read of an absent key), and 'nothing idle-expired stays pooled after a checkout'. spec/PoolSeq.tla is the as-coded sequential pool with its idle clock "
            "(carrying the PoolRule monitor): TLC explores every sequence to depth 7 (thorough 9), and every exported behaviour is replayed on "
-           "the real ObjectPool, whose trace must be the predicted one (the LIFO variant of the model must fail).",
+           "the real ObjectPool, whose trace must be the predicted one (the LIFO variant of the model must fail). Contract clause 'a pooled connection on which a call failed is closed' (a reply the client cannot use fails the call after the exchange is over: the pool must not take the connection back).",
     "C10": " Interruption points now include: the request half sent, the error-path close() before / after the descriptor is closed, the "
            "close of an idle-expired pooled connection, the pool's clean-up of a call rejected before any exchange.",
     "C11": " Also: redundant add_node in the model and the histories, constructor-provided node lists, node names of several shapes, "
            "refused add_server / remove_server leave the rotation as it was. Apalache (symbolic) checks the placement lemmas and the as-coded "
            "fold for ALL natural-number score tables over 4 (thorough 5) nodes, every rotation and node order (spec/PlacementApa.tla). spec/ServerSpec.tla transcribes normalize_server_spec and the grammar of well-formed "
            "address spellings: TLC checks they agree on every string up to length 4 (thorough 6) over the address alphabet, and the real function "
-           "is run on every one of them (TLC judges the results; the as-coded prediction must match).",
+           "is run on every one of them (TLC judges the results; the as-coded prediction must match). Seeds other than 0 and copy / deepcopy of a hasher; upper-case letters in equivalent server spellings.",
     "C12": " Multi-key answers have the shape of the per-key operation (gets_many through a pooled HashClient).",
     "C13": " Also: connection-level errors that are no ConnectionError, server-answered errors that must not count as failures, per-server "
            "clients that honour ignore_exc, 'a server that answered is not sent the same request again in that call', and the result of "
-           "multi-key reads under partial failure (written to by the harness afterwards: results are the caller's).",
-    "C15": " After the caller changed the object it got, deserialising the same stored form again must still return the stored value.",
-    "C16": " Also: keys named twice, dict-style access, construction with unusual spellings of the shared options (str / non-ASCII prefixes).",
+           "multi-key reads under partial failure (written to by the harness afterwards: results are the caller's). 405 deterministic histories around the instants of eviction and revival; a quarter of them (and a fifth of the random ones) run the REAL Client on the fake network behind HashClient (servers that refuse, hang, or answer SERVER_ERROR; failing = what the environment says), a quarter use UNIX-socket servers, a quarter one single operation throughout; batches of one key.",
+    "C15": " After the caller changed the object it got, deserialising the same stored form again must still return the stored value. Values after a refused one on the same serde object; text beginning with U+FEFF and other signature characters; small / negative ints.",
+    "C16": " Also: keys named twice, dict-style access, construction with unusual spellings of the shared options (str / non-ASCII prefixes). Every combination of connect_timeout / timeout given, None or left out (what the first exchange connects and talks under); a falsy serde object.",
     "C17": " The wrapped client is a subclass instance with the mapping protocol; rc[k] (hit and miss), rc[k] = v and del rc[k] go through the same contract.",
     "C18": " Half of the executions use plain argument values (negative / zero / large expiry, True/False/None, ...) compared by type and value; "
            "a miss returns nothing (the harness writes into every result it gets).",
     "C19": " The environment really fails nodes (open connection reset + refused): 'fault' events; blank IP fields without VPC addressing; "
            "no node is left with two open connections. The bookkeeping invariant of the client (rotation within clients, nothing twice, dead servers out of "
            "the rotation) is checked to be inductive by TLC started in EVERY state that satisfies it (SpecAny), and from every such state a "
-           "reconfiguration establishes the contract: C19 for histories of any length.",
+           "reconfiguration establishes the contract: C19 for histories of any length. One execution in four with a TLS context (the address kind use_vpc selects does not depend on it).",
     "C20": " Validation is also exercised through operations: get / get_many / set / delete on the three classes, with ignore_exc, with an "
-           "unreachable server, with an empty rotation, and after the same text was validated as a stats argument.",
+           "unreachable server, with an empty rotation, and after the same text was validated as a stats argument. Every key-addressed operation (gets, gat, gats, touch, gets_many, set, add, append, cas, set_many, delete_many, incr) on Client, PooledClient, HashClient with and without ignore_exc: the key bytes of the command that went out.",
 }
 
 
